@@ -88,7 +88,7 @@ def run_sims(work, schedules, nrandom, mode, seed, race=False):
     return out, p
 
 
-def validate_traces(work, tracefile, procs=4):
+def validate_traces(work, tracefile, procs=4, module="Trace_Client", cfg=None, specname="spec/Client.tla"):
     """Runs Trace_Client over the trace file (split over several TLC processes). Returns violations and counts."""
     from concurrent.futures import ThreadPoolExecutor
     lines = [l for l in open(tracefile).read().splitlines() if l.strip()]
@@ -104,9 +104,9 @@ def validate_traces(work, tracefile, procs=4):
 
     def one(i):
         pth, part = parts[i]
-        r = common.tlc(work, "Trace_Client", workers=4, timeout=3000, env=dict(VH_TRACE=pth), tag="Trace_Client-p%d" % i, heap="6g")
+        r = common.tlc(work, module, cfg=cfg, workers=4, timeout=3000, env=dict(VH_TRACE=pth), tag="%s-p%d" % (cfg or module, i), heap="6g")
         if r["error"] is not None or r["rc"] != 0 or r["violated"]:
-            raise Infra("Trace_Client: TLC error\n" + r["out"][-3000:])
+            raise Infra(module + ": TLC error\n" + r["out"][-3000:])
         return r
 
     with ThreadPoolExecutor(max_workers=procs) as ex:
@@ -124,8 +124,9 @@ def validate_traces(work, tracefile, procs=4):
                 badids.add(tid)
                 t = json.loads(byid[tid])
                 ctx = t["ev"][max(0, at - 4):at]
-                viol.append(("trace %d (%s, cfg %s) is not a behaviour of spec/Client.tla: line %d %s is not allowed after %s"
-                             % (tid, t["cfg"].get("mode"), {k: v for k, v in t["cfg"].items() if k != "mode"}, at,
+                tc = t.get("cfg", {})
+                viol.append(("trace %d (%s, cfg %s) is not a behaviour of %s: line %d %s is not allowed after %s"
+                             % (tid, tc.get("mode", t.get("mode")), {k: v for k, v in tc.items() if k != "mode"}, specname, at,
                                 json.dumps(t["ev"][at - 1]), json.dumps(ctx[:-1])[-400:]), [byid[tid]]))
             m = re.match(r'<<"INVARIANT", "(\w+)", (\d+), (\d+)>>', ln)
             if m:
@@ -135,10 +136,10 @@ def validate_traces(work, tracefile, procs=4):
                 badids.add((tid, name))
                 t = json.loads(byid[tid])
                 viol.append(("trace %d (%s): invariant %s violated after %d recorded actions; last: %s"
-                             % (tid, t["cfg"].get("mode"), name, at, json.dumps(t["ev"][max(0, at - 3):at])[-500:]), [byid[tid]]))
+                             % (tid, t.get("cfg", {}).get("mode", t.get("mode")), name, at, json.dumps(t["ev"][max(0, at - 3):at])[-500:]), [byid[tid]]))
     expect = sum(len(json.loads(l)["ev"]) + 1 for l in lines)
     if not viol and nstates != expect:
-        raise Infra("Trace_Client consumed %d states, expected %d" % (nstates, expect))
+        raise Infra("%s consumed %d states, expected %d" % (module, nstates, expect))
     return viol, nstates, lines
 
 
